@@ -577,15 +577,12 @@ class ProdParser(object):
                     break
 
                 except ParseError as e:
-                    # needed???
-                    if stopIfNoMoreMatch:  # and token:
-                        # print "\t2stopIfNoMoreMatch", e, token, prod
-                        tokenizer.push(token)
-                        stopall = True
-
-                    else:
-                        wellformed = False
-                        self._log.error('%s: %s: %r' % (name, e, token))
+                    # Missing: a production has begun and its next
+                    # mandatory part is not this token. That is never a
+                    # clean stop, also not under stopIfNoMoreMatch (which
+                    # covers NoMatch above: nothing has begun)
+                    wellformed = False
+                    self._log.error('%s: %s: %r' % (name, e, token))
                     break
 
                 else:
